@@ -71,7 +71,7 @@ func c08rSerial(m *vfkit.Decoded) (uint32, bool) {
 }
 
 func TestVfC08Redis(t *testing.T) {
-	st := vfkit.Stats("TestVfC08Redis", "two pairs of proxies, each pair sharing one harness-made RESP3 store as second-level cache (one proxy without memory cache, one with; maximum_ttl unset for one pair and 2 for the other; ip marker and ECS on); runs of 40-160 names x (type, class) variants, each with a script of upstream replies (rcode, TC, TTL vectors) and 3-8 asks over 9 s, every ask drawn to one proxy of the pair and one client group; oracles: a response carrying the serial of a fetch belongs to the same name, type, class and client group as that fetch; served TTL <= max(1, T - whole seconds since t_ref) - for a hit at the proxy without memory cache counted up to the earliest moment the store can have answered a lookup of that name made while the query was open (in one run of three 1-4 names have lookups of 1.1-2.6 s); not served from a fetch once its lifetime + 2 s has passed; truncated replies never served later; all responses with one serial agree in rcode, flags and records; at the store: an error response never replaces a live positive value that has more than 1 s left; non-trivial = a run with hits served out of the shared store (counted at the store) and >= 1 aged or expired observation")
+	st := vfkit.Stats("TestVfC08Redis", "two pairs of proxies, each pair sharing one harness-made RESP3 store as second-level cache (one proxy without memory cache, one with; maximum_ttl unset for one pair and 2 for the other; ip marker and ECS on); runs of 40-160 names x (type, class) variants, each with a script of upstream replies (rcode, TC, TTL vectors) and 3-8 asks over 9 s, every ask drawn to one proxy of the pair and one client group; oracles: a response carrying the serial of a fetch belongs to the same name, type, class and client group as that fetch; served TTL <= max(1, T - whole seconds since t_ref) - for a hit at the proxy without memory cache counted up to the earliest moment the store can have answered a lookup of that name made while the query was open (in every other run 4-16 names have lookups of 1.1-2.6 s, half of them with answers that live 8 s and all their asks at that proxy); not served from a fetch once its lifetime + 2 s has passed; truncated replies never served later; all responses with one serial agree in rcode, flags and records; at the store: an error response never replaces a live positive value that has more than 1 s left; non-trivial = a run with hits served out of the shared store (counted at the store) and >= 1 aged or expired observation")
 	defer vfkit.Flush()
 	block := NextIPBlock()
 	var names sync.Map   // key(label,typ,cls) -> *c08rName
@@ -207,13 +207,21 @@ func TestVfC08Redis(t *testing.T) {
 		// the store answers at once, or after a latency under which the proxies' writes to it queue up
 		P.redis.Delay.Store(int64(time.Duration(rapid.SampledFrom([]int{0, 0, 1000, 3000}).Draw(t, "storeLatencyMicros")) * time.Microsecond))
 		defer P.redis.Delay.Store(0)
-		// In one run of three the store is slow for 1-4 of the names: the second and third lookup of their keys are answered
+		// In every other run the store is slow for 4-16 of the names: the second and third lookup of their keys are answered
 		// after 1.1-2.6 s (a latency spike). The time a lookup takes is time the entry ages: the TTLs of a hit served out of
 		// the store count from the fetch to the moment the store's answer is there, not to the moment the question came in.
 		slow := map[string]time.Duration{}
-		if rapid.IntRange(0, 2).Draw(t, "slowLookups") == 1 {
-			for i := rapid.IntRange(1, 4).Draw(t, "slowNames"); i > 0; i-- {
-				slow[all[rapid.IntRange(0, len(all)-1).Draw(t, "slowName")].label] = time.Duration(rapid.IntRange(1100, 2600).Draw(t, "lookupMs")) * time.Millisecond
+		if rapid.Bool().Draw(t, "slowLookups") {
+			for i := rapid.IntRange(4, 16).Draw(t, "slowNames"); i > 0; i-- {
+				n := all[rapid.IntRange(0, len(all)-1).Draw(t, "slowName")]
+				slow[n.label] = time.Duration(rapid.IntRange(1100, 2600).Draw(t, "lookupMs")) * time.Millisecond
+				if rapid.Bool().Draw(t, "longLived") {
+					// an answer that outlives the slow lookup, asked at the proxy without memory cache by one group
+					n.replies = []c08Reply{{ttls: []uint32{8, 8}, nsTTL: -1}}
+					for j := range n.asks {
+						n.asks[j].proxy, n.asks[j].group = 0, n.asks[0].group
+					}
+				}
 			}
 			P.redis.SetGetDelay(func(key []byte, n int) time.Duration {
 				if n == 0 || n > 2 {
